@@ -53,8 +53,8 @@ pub fn run(args: &Args, rep: &mut Report) {
 }
 
 fn run_bump<const M: usize>(args: &Args, rep: &mut Report) {
-    let esz = [8usize, 8, 1, 3, 4, 1, 1, 8];
-    for which in 0u8..8 {
+    let esz = [8usize, 8, 1, 3, 4, 1, 1, 8, 8, 8];
+    for which in 0u8..10 {
         let counts = boundary_counts(esz[which as usize], if which == 0 { 8 } else { esz[which as usize].min(8) });
         for &n in &counts {
             for fallible in [false, true] {
@@ -70,6 +70,10 @@ fn run_bump<const M: usize>(args: &Args, rep: &mut Report) {
                     if state == 2 {
                         s.op_alloc_layout(rep, 100, 4, false);
                         s.op_set_limit(rep, Some(1 << 20));
+                    }
+                    if which >= 8 && fallible {
+                        // alloc_slice_try_fill_{with,iter} have no try_ twin
+                        continue;
                     }
                     let out = s.op_huge(rep, which, n, fallible);
                     rep.evaluations += 1;
@@ -92,7 +96,7 @@ fn run_bump<const M: usize>(args: &Args, rep: &mut Report) {
         }
     }
     let mut j = J::obj();
-    j.set("bump_grid", J::s("entry points {alloc_layout, slice_fill_with<u64>, slice_fill_copy<u8>, slice_fill_default<[u8;3]>, slice_fill_clone<u32>, slice_copy<()>, with_capacity, slice_fill_iter<u64>} x try_/infallible x arena state {chunkless, with chunk, with chunk+limit} x boundary counts (usize::MAX, usize::MAX/size, isize::MAX/size, isize::MAX rounded by align, 2^32, 2^63, cap) +-1"));
+    j.set("bump_grid", J::s("entry points {alloc_layout, slice_fill_with<u64>, slice_fill_copy<u8>, slice_fill_default<[u8;3]>, slice_fill_clone<u32>, slice_copy<()>, with_capacity, slice_fill_iter<u64>, slice_try_fill_with<u64>, slice_try_fill_iter<u64>} x try_/infallible x arena state {chunkless, with chunk, with chunk+limit} x boundary counts (usize::MAX, usize::MAX/size, isize::MAX/size, isize::MAX rounded by align, 2^32, 2^63, cap) +-1"));
     j.set("min_align", J::i(M as u64));
     rep.sample(j);
 }
